@@ -358,6 +358,104 @@ def t_expand_augassign(tree):
     return True
 
 
+def t_enumerate_to_range(tree):
+    """for i, v in enumerate(xs): ...  ->  for i in range(len(xs)): v = xs[i]; ...   (xs a plain name or self attribute)"""
+    for fn in [n for n in ast.walk(tree) if isinstance(n, ast.FunctionDef)]:
+        for st in [n for n in ast.walk(fn) if isinstance(n, ast.For)]:
+            it = st.iter
+            if isinstance(it, ast.Call) and isinstance(it.func, ast.Name) and it.func.id == "enumerate" and len(it.args) == 1 and not it.keywords \
+                    and isinstance(st.target, ast.Tuple) and len(st.target.elts) == 2 and all(isinstance(e, ast.Name) for e in st.target.elts):
+                xs = it.args[0]
+                if not (isinstance(xs, ast.Name) or (isinstance(xs, ast.Attribute) and isinstance(xs.value, ast.Name))):
+                    continue
+                i, v = st.target.elts
+                st.target = ast.Name(i.id, ast.Store())
+                st.iter = ast.Call(ast.Name("range", ast.Load()), [ast.Call(ast.Name("len", ast.Load()), [copy.deepcopy(xs)], [])], [])
+                if v.id != "_":
+                    st.body.insert(0, ast.Assign([ast.Name(v.id, ast.Store())], ast.Subscript(copy.deepcopy(xs), ast.Name(i.id, ast.Load()), ast.Load()), lineno=st.lineno))
+    ast.fix_missing_locations(tree)
+    return True
+
+
+def t_else_to_early_return(tree):
+    """a trailing  if c: A else: B  of a function body becomes  if c: A; return  followed by B  (A without return/yield)"""
+    for fn in [n for n in ast.walk(tree) if isinstance(n, ast.FunctionDef)]:
+        if any(isinstance(n, (ast.Yield, ast.YieldFrom)) for n in ast.walk(fn)):
+            continue
+        last = fn.body[-1] if fn.body else None
+        if isinstance(last, ast.If) and last.orelse and not (len(last.orelse) == 1 and isinstance(last.orelse[0], ast.If)):
+            if any(isinstance(n, ast.Return) for n in ast.walk(last)):
+                continue
+            rest = last.orelse
+            last.orelse = []
+            last.body.append(ast.Return(None))
+            fn.body.extend(rest)
+    ast.fix_missing_locations(tree)
+    return True
+
+
+def t_hoist_fields(tree):
+    """fld = self.fld once at the top of a method that reads self.fld several times, never assigns it and calls no method on self"""
+    for cls in [n for n in tree.body if isinstance(n, ast.ClassDef)]:
+        for fn in [n for n in cls.body if isinstance(n, ast.FunctionDef)]:
+            if any(isinstance(d, ast.Name) and d.id in ("property", "staticmethod", "classmethod") or isinstance(d, ast.Attribute) for d in fn.decorator_list):
+                continue
+            if not fn.args.args or fn.args.args[0].arg != "self" or fn.name == "__init__":
+                continue
+            if any(isinstance(n, (ast.FunctionDef, ast.Lambda, ast.Yield, ast.YieldFrom, ast.Try, ast.With)) for n in ast.walk(fn) if n is not fn):
+                continue
+            attrs = [n for n in ast.walk(fn) if isinstance(n, ast.Attribute) and isinstance(n.value, ast.Name) and n.value.id == "self"]
+            called = {n.func.attr for n in ast.walk(fn) if isinstance(n, ast.Call) and isinstance(n.func, ast.Attribute)
+                      and isinstance(n.func.value, (ast.Name, ast.Call)) and (not isinstance(n.func.value, ast.Name) or n.func.value.id == "self")}
+            if called:
+                continue  # a callee may rebind the field
+            stored = {n.attr for n in attrs if not isinstance(n.ctx, ast.Load)}
+            names = {n.id for n in ast.walk(fn) if isinstance(n, ast.Name)} | {a.arg for a in fn.args.args + fn.args.kwonlyargs}
+            counts = {}
+            for n in attrs:
+                if isinstance(n.ctx, ast.Load) and n.attr.startswith("_") and not n.attr.startswith("__"):
+                    counts[n.attr] = counts.get(n.attr, 0) + 1
+            hoist = [a for a, c in counts.items() if c >= 2 and a not in stored and ("h" + a) not in names]
+            if not hoist:
+                continue
+
+            class T(ast.NodeTransformer):
+                def visit_Attribute(self, node):
+                    self.generic_visit(node)
+                    if isinstance(node.value, ast.Name) and node.value.id == "self" and node.attr in hoist and isinstance(node.ctx, ast.Load):
+                        return ast.copy_location(ast.Name("h" + node.attr, ast.Load()), node)
+                    return node
+            for i, st in enumerate(fn.body):
+                fn.body[i] = T().visit(st)
+            start = 1 if (fn.body and isinstance(fn.body[0], ast.Expr) and isinstance(fn.body[0].value, ast.Constant)) else 0
+            fn.body[start:start] = [ast.Assign([ast.Name("h" + a, ast.Store())], ast.Attribute(ast.Name("self", ast.Load()), a, ast.Load()), lineno=fn.lineno)
+                                    for a in sorted(hoist)]
+    ast.fix_missing_locations(tree)
+    return True
+
+
+def t_append_loop_to_comprehension(tree):
+    """r = []; for x in xs: r.append(e)   ->   r = [e for x in xs]"""
+    for fn in [n for n in ast.walk(tree) if isinstance(n, ast.FunctionDef)]:
+        for b in list(_stmt_lists(fn)):
+            i = 0
+            while i + 1 < len(b):
+                a, f = b[i], b[i + 1]
+                if isinstance(a, (ast.Assign, ast.AnnAssign)) and isinstance(f, ast.For) and not f.orelse and len(f.body) == 1:
+                    tgt = a.targets[0] if isinstance(a, ast.Assign) and len(a.targets) == 1 else (a.target if isinstance(a, ast.AnnAssign) else None)
+                    val = a.value
+                    call = f.body[0].value if isinstance(f.body[0], ast.Expr) else None
+                    if isinstance(tgt, ast.Name) and isinstance(val, ast.List) and not val.elts and isinstance(call, ast.Call) \
+                            and isinstance(call.func, ast.Attribute) and call.func.attr == "append" and isinstance(call.func.value, ast.Name) \
+                            and call.func.value.id == tgt.id and len(call.args) == 1 \
+                            and not any(isinstance(n, ast.Name) and n.id == tgt.id for n in ast.walk(call.args[0])):
+                        comp = ast.ListComp(call.args[0], [ast.comprehension(f.target, f.iter, [], 0)])
+                        b[i:i + 2] = [ast.copy_location(ast.Assign([ast.Name(tgt.id, ast.Store())], comp), a)]
+                i += 1
+    ast.fix_missing_locations(tree)
+    return True
+
+
 SILENT_GLOBAL = [
     ("unparse round trip", t_roundtrip),
     ("method order reversed", t_reverse_methods),
@@ -368,6 +466,10 @@ SILENT_GLOBAL = [
     ("conditional expressions written as if/else statements", t_ifexp_to_stmt),
     ("!= spelled as not ==", t_neq_spelling),
     ("augmented assignments expanded", t_expand_augassign),
+    ("enumerate loops written as range(len(...)) loops", t_enumerate_to_range),
+    ("trailing if/else written with an early return", t_else_to_early_return),
+    ("repeatedly read fields hoisted into locals", t_hoist_fields),
+    ("append loops written as comprehensions", t_append_loop_to_comprehension),
 ]
 
 
